@@ -177,7 +177,7 @@ def run_case(case):
             fw = refframe.build(framing, puid, specpdu.encode('req:6', {'address': 39, 'value': val}))
             fr_ = refframe.build(framing, puid, specpdu.encode('req:3', {'address': 39, 'quantity': 1}))
             fp = refframe.build(framing, puid, specpdu.encode('rsp:3', {'registers': [val]}))
-            if not any(b in (0x7B, 0x7D) for b in fw[1:-1] + fr_[1:-1] + fp[1:-1]):
+            if not (refframe.binary_fragile(fw) or refframe.binary_fragile(fr_) or refframe.binary_fragile(fp)):
                 break
     w = specpdu.encode('req:6', {'address': 39, 'value': val})
     if framing == 'binary':
